@@ -239,6 +239,8 @@ pub struct Session {
     pub env: Rc<Environment>,
     pub dead: Cell<bool>,
     pub outputs: RefCell<IndexMap<String, Option<String>>>,
+    pub outputs_json: RefCell<IndexMap<String, serde_json::Value>>,
+    pub output_errors: Cell<u32>,
 }
 
 pub struct EvalCfg {
@@ -271,7 +273,7 @@ impl Session {
         }
         let rec = heap.borrow_mut().insert_record(map);
         env.insert("inputs".to_string(), rec);
-        Session { heap, env, dead: Cell::new(false), outputs: RefCell::new(IndexMap::new()) }
+        Session { heap, env, dead: Cell::new(false), outputs: RefCell::new(IndexMap::new()), outputs_json: RefCell::new(IndexMap::new()), output_errors: Cell::new(0) }
     }
 
     pub fn root(&self) -> BTreeMap<String, Value> {
@@ -405,12 +407,18 @@ impl Session {
                     let canon = self.canon_of(&v);
                     if let Some((name, is_assign)) = &out_name {
                         // as main.rs: `output n` reads the binding, `output n = e` uses the result
-                        let val = if *is_assign { Some(v) } else { self.env.get(name) };
+                        let val = if *is_assign { Some(v) } else { self.env.get(name).or(Some(v)) };
                         if let Some(val) = val {
                             let ok = validate_portable_value(&val, &self.heap.borrow(), &self.env).is_ok();
                             if ok {
                                 let c = self.canon_of(&val);
                                 self.outputs.borrow_mut().insert(name.clone(), c);
+                                if let Some(sv) = self.serializable_of(&val) {
+                                    self.outputs_json.borrow_mut().insert(name.clone(), sv.to_json());
+                                }
+                            } else {
+                                // main.rs: `[output error]` and exit 1
+                                self.output_errors.set(self.output_errors.get() + 1);
                             }
                         }
                     }
